@@ -113,10 +113,6 @@ theorem minList_none {l : List Int} (h : minList l = none) : l = [] := by
     simp only [minList] at h
     cases hx : minList xs <;> simp [hx] at h
 
-/-- a peer that blocks `me` at `now`: alive, somebody else, comparable priority ≥ mine. -/
-def Blocks (u : Int) (now : Int) (me : Identity) (myPrio : Int) (q : Peer) : Prop :=
-  q.id ≠ me ∧ q.isDead u now = false ∧ ∃ x, q.prio = some x ∧ x ≥ myPrio
-
 theorem mem_blockers {u : Int} {now : Int} {me : Identity} {myPrio : Int} {ps : List Peer} {q : Peer} :
     q ∈ samePeers myPrio (livePeers u now me ps) ++ prioPeers myPrio (livePeers u now me ps) ↔
       q ∈ ps ∧ Blocks u now me myPrio q := by
